@@ -13,7 +13,7 @@
                                                   environment, an extra parameter)
    strings.Trim(s, cutset)                        strings_trim s cutset                       *)
 From Coq Require Import List String Ascii Bool Arith.
-From GT Require Import GConfModel TmplModel.
+From GT Require Import GConfModel GConfGenPrims TmplModel.
 Import ListNotations.
 
 Definition find_submatch (s : string) : list string :=
@@ -21,11 +21,6 @@ Definition find_submatch (s : string) : list string :=
   | Some (n, d) => [s; n; d]
   | None => []
   end.
-
-Definition str_nth (l : list string) (i : nat) : string := nth i l EmptyString.
-
-Definition os_lookup_env (env : list (string * string)) (name : string) : string * bool :=
-  match assoc name env with Some v => (v, true) | None => (EmptyString, false) end.
 
 Definition in_cutset (cut : list ascii) (c : ascii) : bool := existsb (Ascii.eqb c) cut.
 
